@@ -280,6 +280,64 @@ pub fn run_dec_check(ctx: &Ctx, check: &DecCheck) -> Stats {
     if fw::should_stop() {
         return total;
     }
+    // ---- uniform-run family: 15..=33 copies of one atom (a whole stride of non-ASCII units, which a
+    // vector or table path may treat as a block) with output capacities below and around a stride
+    let st = par_run(ctx, n_enc * 4, |part, st| {
+        let enc = check.encs[part / 4];
+        let lane = part % 4;
+        let algo = algo_for(enc);
+        let is16 = matches!(algo, Algo::Utf16(_));
+        let atoms: Vec<Vec<u8>> = hist::atoms(algo).into_iter().filter(|a| a.iter().any(|b| *b >= 0x80 || *b == 0x1B)).collect();
+        let mut sc = Scratch::new();
+        for (ai, a) in atoms.iter().enumerate() {
+            if ai % 4 != lane {
+                continue;
+            }
+            for p in [0usize, 3] {
+                for k in [15usize, 16, 17, 32, 33] {
+                    if fw::should_stop() {
+                        return;
+                    }
+                    let mut stream: Vec<u8> = Vec::new();
+                    for i in 0..p {
+                        let c = b'a' + i as u8;
+                        match algo {
+                            Algo::Utf16(true) => stream.extend_from_slice(&[0, c]),
+                            Algo::Utf16(false) => stream.extend_from_slice(&[c, 0]),
+                            _ => stream.push(c),
+                        }
+                    }
+                    for _ in 0..k {
+                        stream.extend_from_slice(a);
+                    }
+                    stream.extend_from_slice(if is16 { if algo == Algo::Utf16(true) { b"\x00z" } else { b"z\x00" } } else { b"z" });
+                    for &sink in &check.sinks {
+                        for &repl in &check.repls {
+                            let m = sink.min_cap();
+                            for caps in [vec![m], vec![m + 1], vec![m + 3], vec![15], vec![16], vec![17], vec![24], vec![47], vec![m, 33]] {
+                                let h = DecHistory { enc, mode: check.modes[0], sink, repl, stream: stream.clone(), cuts: if k == 16 { vec![p] } else { vec![] }, last_on_empty: k & 1 == 1, caps, fill: check.fills[k % check.fills.len()], align: (k + p) & 15, sinks_per_call: vec![], repls_per_call: vec![] };
+                                st.evals += 1;
+                                st.class("uniform-run-of-one-atom");
+                                if let Some((msg, sig)) = (check.verdict)(&h, &mut sc, st, true) {
+                                    if let Some(id) = fw::known_open_id(&sig) {
+                                        st.known_hit(id);
+                                    } else {
+                                        st.violations.push(violation_for(&h, check, msg, sig));
+                                        return;
+                                    }
+                                }
+                            }
+                        }
+                    }
+                }
+            }
+        }
+    });
+    total.merge(st);
+    total.exhaustive.push("uniform-run family: 15/16/17/32/33 copies of each non-ASCII atom after 0 or 3 ASCII units x sinks x modes x capacities {minimum, +1, +3, 15, 16, 17, 24, 47, minimum then 33}".into());
+    if fw::should_stop() {
+        return total;
+    }
     // ---- BOM-switch family: a BOM followed by k = 0..=12 units of worst-case payload IN THE BOM'S
     // encoding (what a sniffing decoder of any nominal encoding becomes), cut before / inside /
     // after the BOM or not at all - length estimates and space checks for the switched decoder
